@@ -189,6 +189,46 @@ def h_rules(ctx: Any, rule: str, n: int, twin: bool = False) -> None:
             ctx.violation(f'C02.rule.{rule}.checker-rejects[optimize={opt}|{msg}]', f'axioms {pe._axioms!r} claim {th.conc!r}: {e}')
 
 
+def h_capture(ctx: Any, kind: str, twin: bool = False) -> None:
+    """a pending substitution whose resolution at instantiation passes under a binder: the toolkit resolves it
+    without any capture check, the checker asserts capture-freedom"""
+    from proof_generation import pattern as P
+
+    it = c04._prelude(ctx, 'gamma')
+    a, b, x, y = ctx.int('a'), ctx.int('b'), ctx.int('x'), ctx.int('y')
+    log = []
+    try:
+        if kind == 'e':
+            plug = it.exists(b, it.evar(a))  # exists b. a
+            inner = it.evar(y)
+            mv = it.metavar(0)
+            target = it.esubst(x, mv, inner)  # phi0[y/x]
+        else:
+            plug = it.mu(b, it.svar(a))  # mu B. A   (positive: A occurs positively)
+            inner = it.svar(y)
+            mv = it.metavar(0)
+            target = it.ssubst(x, mv, inner)  # phi0[Y/X]
+        log.append(f'target {target!r}, phi0 := {plug!r}')
+        checker_prefix(it)
+        it.instantiate_pattern(target, {0: plug})
+    except Panic:
+        ctx.count('earlier_step_rejected')
+        ctx.assume(False)
+    except Exception:
+        ctx.count('toolkit_raised')
+        return
+    ctx.count('reached')
+    ctx.sample({'kind': kind, 'calls': log})
+    if twin:
+        ctx.violation('TWIN')
+    try:
+        checker_prefix(it)
+        ctx.count('accepted')
+    except Panic as e:
+        msg = (e.msg or e.site).split('{')[0].strip()
+        ctx.violation(f'C02.instantiate_pattern.checker-rejects[{msg}]', f'{log!r}: the toolkit resolved the pending substitution, the checker panics: {e}')
+
+
 # -- concrete modules through the real binary ---------------------------------------------------
 
 
@@ -314,6 +354,8 @@ def levels(tier: str) -> list[dict]:
     plan = [('patterns', 'gamma', 3 if q else 4), ('proofs', 'proof', 3 if q else 5), ('small', 'proof', 3 if q else 6), ('all', 'gamma', 3 if q else 4)]
     for alpha, ph, st in plan:
         L.append(dict(label=f'seq/{alpha}/{ph}/steps<={st}', module=M, fn='h_seq', kwargs=dict(alphabet=alpha, steps=st, phase=ph), budget_s=bud, required=True, twin=(alpha == 'small')))
+    for kind in 'es':
+        L.append(dict(label=f'capture/{kind}subst-resolved-under-binder', module=M, fn='h_capture', kwargs=dict(kind=kind), budget_s=bud, required=True, twin=(kind == 'e')))
     for rule in ('gen', 'mp', 'inst', 'dyninst'):
         for n in ([3, 4] if q else [3, 4, 5]):
             if rule in ('inst', 'dyninst') and n > 3:
